@@ -23,6 +23,9 @@ RULE = (
     "within +-1 of the highest occupied level, or a displacement/squeezing with both real and imaginary part "
     "non-zero; distinct = (call, entry, storage, representation, direction, edge offset, layout hash)."
 )
+from pw_verif.props._machine import HISTORY_NOTE, SURVIVOR_NOTE  # noqa: E402,F401
+
+RULE += SURVIVOR_NOTE + HISTORY_NOTE
 ASSUMPTIONS = ["reference self-tests passed", "|alpha| <= 1, |zeta| <= 0.6, occupation <= 3 before the call, so the population neglected by the cut-off-26+ reference is < 1e-9",
                "'ideal infinite-dimensional result' is approximated by that reference"]
 
